@@ -27,6 +27,7 @@ type Solver struct {
 	buf     strings.Builder
 	depth   int
 	dead    bool
+	bornAt  int // value of Queries when this process replaced an earlier one
 	Log     io.Writer
 
 	// stats
@@ -47,7 +48,8 @@ func NewSolver(kind string, store *TermStore, timeoutMs int) (*Solver, error) {
 	case "z3-new":
 		cmd = exec.Command("z3-new", "-in")
 	case "cvc5":
-		cmd = exec.Command("cvc5", "--incremental", "--fp-exp", fmt.Sprintf("--tlimit-per=%d", timeoutMs))
+		// address-space limit: a query that blows up ends the process (=> unknown) instead of the machine
+		cmd = exec.Command("prlimit", "--as=2684354560", "cvc5", "--incremental", "--fp-exp", fmt.Sprintf("--tlimit-per=%d", timeoutMs))
 	default:
 		return nil, fmt.Errorf("unknown solver %q", kind)
 	}
